@@ -312,28 +312,20 @@ static void w_audit(void)
     for (k = 0; k < N; k++) MC_CHECK(PC13, pool[k].pad == 0x1111 && pool[k].tail == 0x2222 && pool[k].pad2 == 0x3333 && pool[k].val == vals[k], "element %d bytes outside its list node were modified", k);
 }
 
-static void sym(const void *p)
+/* names for the addresses found in the raw bytes of the list objects and of the member nodes: element index + offset, list index + offset */
+static int lsym(uintptr_t v)
 {
-    int l;
-    if (p == NULL) { KB_C('0'); return; }
-    for (l = 0; l < NL; l++) if (p == (const void *)&L[l].h) { KB_C('H'); KB_U((unsigned)l); return; }
-    if ((uintptr_t)p >= (uintptr_t)pool && (uintptr_t)p < (uintptr_t)(pool + N)
-        && ((uintptr_t)p - (uintptr_t)pool) % sizeof(struct elem) == offsetof(struct elem, n)) {
-        KB_C('e'); KB_U((unsigned)(((uintptr_t)p - (uintptr_t)pool) / sizeof(struct elem))); return;
-    }
-    if ((uintptr_t)p >= (uintptr_t)pool && (uintptr_t)p < (uintptr_t)(pool + N)
-        && ((uintptr_t)p - (uintptr_t)pool) % sizeof(struct elem) == offsetof(struct elem, n2)) {
-        KB_C('f'); KB_U((unsigned)(((uintptr_t)p - (uintptr_t)pool) / sizeof(struct elem))); return;
-    }
-    KB_C('?');
+    if (v >= (uintptr_t)pool && v < (uintptr_t)(pool + N)) { size_t d = v - (uintptr_t)pool; KB_C('e'); KB_U(d / sizeof(struct elem)); KB_C('+'); KB_U(d % sizeof(struct elem)); return 1; }
+    if (v >= (uintptr_t)L && v < (uintptr_t)(L + NL)) { size_t d = v - (uintptr_t)L; KB_C('H'); KB_U(d / sizeof L[0]); KB_C('+'); KB_U(d % sizeof L[0]); return 1; }
+    return 0;
 }
+/* every byte of the list object and of the node of every member, members of the library's structs unnamed (a change may rename or reorder them) */
 static void canon_one(int l)
 {
     int k;
-
-        KB_C('L'); KB_U(L[l].count); KB_C('o'); KB_U(L[l].off); KB_C('/'); KB_U(m_off[l]); KB_C(':'); sym(L[l].h.n); KB_C(','); sym(L[l].t); KB_C('[');
-        for (k = 0; k < m_len[l]; k++) { const struct elem *e = &pool[m_seq[l][k]]; KB_U((unsigned)e->idx); KB_C('='); sym(ND(e->idx, m_off[l])->n); KB_C(' '); }
-        KB_C(']');
+    KB_C('L'); KB_MEM(&L[l], sizeof L[l], lsym); KB_C('/'); KB_U(m_off[l]); KB_C('[');
+    for (k = 0; k < m_len[l]; k++) { int i = m_seq[l][k]; KB_U((unsigned)i); KB_C('='); KB_MEM((const char *)&pool[i] + m_off[l], sizeof(struct cstl_slist_node), lsym); KB_C(' '); }
+    KB_C(']');
 }
 static void w_canon(void)
 {
